@@ -59,6 +59,11 @@ static ADesc gen_desc(Draw &d) {
     // the types may be listed in any order (the first listed varies fastest), not only outermost first (seeded change C07)
     if (sel.size() >= 2 && d.chance(1, 2)) { for (size_t i = sel.size(); i > 1; i--) std::swap(sel[i - 1], sel[d.raw() % i]); }
     if (!sel.empty()) { for (size_t k = 0; k < sel.size(); k++) pu.idx += (k ? ":" : "") + a.lv[sel[k]].name; pu.intlv = sel; /* (listing the PU level itself is not accepted by the parser - the specification is then ignored - and not documented) */ } }
+  // an explicit index list on one other level that carries OS indexes (Package, Die, Core, NUMA level), when the PU level has none:
+  // the objects of that level are then numbered by the list in creation order, which is their logical order
+  if (pu.idx.empty() && !deep && d.chance(1, 3)) { std::vector<size_t> cand; unsigned long w = 1; std::vector<unsigned long> cumw; for (size_t i = 0; i + 1 < a.lv.size(); i++) { w *= a.lv[i].arity; cumw.push_back(w); if ((a.lv[i].type == HWLOC_OBJ_PACKAGE || a.lv[i].type == HWLOC_OBJ_DIE || a.lv[i].type == HWLOC_OBJ_CORE || a.lv[i].type == HWLOC_OBJ_NUMANODE) && w <= 96) cand.push_back(i); }
+    if (!cand.empty()) { size_t k = cand[d.raw() % cand.size()]; ALevel &l = a.lv[k]; unsigned long n = cumw[k]; std::vector<unsigned> q(n); for (unsigned i = 0; i < n; i++) q[i] = i; for (unsigned long i = n; i > 1; i--) std::swap(q[i - 1], q[d.raw() % i]); int sp = d.range(0, 3); if (sp == 1) for (auto &x : q) x = x * 2 + 3; else if (sp == 2) for (auto &x : q) x += 1;   // lists that do not start at 0, sparse lists
+      l.perm = q; for (unsigned long i = 0; i < n; i++) l.idx += (i ? "," : "") + std::to_string(q[i]); } }
   return a;
 }
 
@@ -102,6 +107,17 @@ void h_run(Case &c) {
     for (auto &l : a.lv) { between *= l.arity; if (l.type == HWLOC_OBJ_GROUP || l.type == HWLOC_OBJ_NUMANODE || (l.type == HWLOC_OBJ_DIE && l.arity == 1)) continue;
       if (prev) for (hwloc_obj_t o = NULL; (o = hwloc_get_next_obj_by_type(t, prev->type, o));) { int n = hwloc_get_nbobjs_inside_cpuset_by_type(t, o->cpuset, l.type); CHECK(c, n == (int)between, "arity", "a %s contains %d %s, the description gives %lu", prev->name.c_str(), n, l.name.c_str(), between); }
       prev = &l; between = 1; } }
+  // NUMA OS indexes: all NUMA nodes of a description (one level, or all attached items together, or the implicit node) share one index
+  // space, 0..n-1 in creation order unless that level carries an explicit list; the root nodeset is that set
+  { USet got, exp; for (hwloc_obj_t n = NULL; (n = hwloc_get_next_obj_by_type(t, HWLOC_OBJ_NUMANODE, n));) { CHECK(c, !got.count(n->os_index), "numa_indexes", "two NUMA nodes have os_index %u", n->os_index); got.insert(n->os_index); }
+    const ALevel *nl = nullptr; for (auto &l : a.lv) if (l.type == HWLOC_OBJ_NUMANODE) nl = &l;
+    if (nl && !nl->perm.empty()) exp.insert(nl->perm.begin(), nl->perm.end()); else for (unsigned long i = 0; i < numa_expected; i++) exp.insert((unsigned)i);
+    CHECK(c, got == exp, "numa_indexes", "NUMA os_index set {%s}, the description gives {%s}", ustr(got).c_str(), ustr(exp).c_str());
+    USet rn; to_uset(hwloc_topology_get_topology_nodeset(t), rn); CHECK(c, rn == exp, "numa_indexes", "topology nodeset {%s}, the description gives {%s}", ustr(rn).c_str(), ustr(exp).c_str()); }
+  // explicit index list on a non-PU level: L#i of that type has the i-th listed index
+  { unsigned long w = 1; for (size_t k = 0; k + 1 < a.lv.size(); k++) { const ALevel &l = a.lv[k]; w *= l.arity; if (l.perm.empty()) continue; c.cls("indexes:list-on-upper-level");
+      if (hwloc_get_nbobjs_by_type(t, l.type) != (int)w) continue;   // (a Die level identical to its Package level is merged)
+      for (unsigned long i = 0; i < w; i++) { hwloc_obj_t o = hwloc_get_obj_by_type(t, l.type, (unsigned)i); CHECK(c, o->os_index == l.perm[i], "indexes_list_upper", "%s L#%lu has os_index %u, the list (%s) gives %u", l.name.c_str(), i, o->os_index, l.idx.substr(0, 80).c_str(), l.perm[i]); } } }
   // attached NUMA nodes: every object of a level with attached items has, among the NUMA nodes whose locality is exactly its cpuset, the
   // items of all the levels that share this cpuset (a child level of arity 1 has the same cpuset; which of these objects holds the
   // memory children is not part of the statement)
